@@ -371,6 +371,7 @@ func checkC18(ctx *Ctx, r *Report, tier string) {
 	r.floor("H4", 4)
 	screwSpec(ctx, r, "H5")
 	checkNutBoreThrough(ctx, r)
+	checkThreadNotReflected(ctx, r)
 	checkProfilePitchIsScrewPitch(ctx, r)
 	checkISOMating(ctx, r)
 	checkRowsReadOnly(ctx, r)
@@ -962,4 +963,108 @@ func checkProfilePitchIsScrewPitch(ctx *Ctx, r *Report) {
 		r.undecided("H9", "obj", 0, "no thread construction found in package obj")
 	}
 	r.floor("H9", 1)
+}
+
+// checkThreadNotReflected (H10): a reflection reverses the hand of a helix, so a screw thread
+// that has been through a mirror transform no longer mates with the unreflected thread of the
+// same designation (a right-handed bolt does not enter a left-handed nut). Wherever package obj
+// applies Transform3D to a solid that derives from a Screw3D call (directly, through further
+// transforms, tuple extraction, interface conversion or a merge of branches), the matrix does
+// not derive from one of the Mirror constructors. Turning a thread over is a rotation.
+func checkThreadNotReflected(ctx *Ctx, r *Report) {
+	isSdfFn := func(f *ssa.Function, names ...string) bool {
+		if f == nil || f.Pkg == nil || !strings.HasSuffix(f.Pkg.Pkg.Path(), "/sdf") {
+			return false
+		}
+		for _, n := range names {
+			if f.Name() == n || (strings.HasSuffix(n, "*") && strings.HasPrefix(f.Name(), strings.TrimSuffix(n, "*"))) {
+				return true
+			}
+		}
+		return false
+	}
+	var fromScrew func(v ssa.Value, seen map[ssa.Value]bool) bool
+	fromScrew = func(v ssa.Value, seen map[ssa.Value]bool) bool {
+		if v == nil || seen[v] {
+			return false
+		}
+		seen[v] = true
+		switch x := v.(type) {
+		case *ssa.Call:
+			f := x.Common().StaticCallee()
+			if isSdfFn(f, "Screw3D") {
+				return true
+			}
+			if f != nil && inModule(f) {
+				// a solid built from solids: the thread is still in it
+				for _, a := range x.Common().Args {
+					if isSDFType(a.Type()) && fromScrew(a, seen) {
+						return true
+					}
+				}
+			}
+		case *ssa.Extract:
+			return fromScrew(x.Tuple, seen)
+		case *ssa.MakeInterface:
+			return fromScrew(x.X, seen)
+		case *ssa.ChangeInterface:
+			return fromScrew(x.X, seen)
+		case *ssa.ChangeType:
+			return fromScrew(x.X, seen)
+		case *ssa.Phi:
+			for _, e := range x.Edges {
+				if fromScrew(e, seen) {
+					return true
+				}
+			}
+		}
+		return false
+	}
+	var fromMirror func(v ssa.Value, seen map[ssa.Value]bool) bool
+	fromMirror = func(v ssa.Value, seen map[ssa.Value]bool) bool {
+		if v == nil || seen[v] {
+			return false
+		}
+		seen[v] = true
+		switch x := v.(type) {
+		case *ssa.Call:
+			if isSdfFn(x.Common().StaticCallee(), "Mirror*") {
+				return true
+			}
+			for _, a := range x.Common().Args { // products of matrices
+				if fromMirror(a, seen) {
+					return true
+				}
+			}
+		case *ssa.Phi:
+			for _, e := range x.Edges {
+				if fromMirror(e, seen) {
+					return true
+				}
+			}
+		case *ssa.UnOp:
+			return fromMirror(x.X, seen)
+		}
+		return false
+	}
+	n := 0
+	for _, fn := range ctx.srcFuncs("obj") {
+		ord := 0
+		allInstrs(fn, func(_ *ssa.BasicBlock, ins ssa.Instruction) {
+			c, ok := ins.(*ssa.Call)
+			if !ok || !isSdfFn(c.Common().StaticCallee(), "Transform3D") || len(c.Common().Args) != 2 {
+				return
+			}
+			if !fromScrew(c.Common().Args[0], map[ssa.Value]bool{}) {
+				return
+			}
+			ord++
+			n++
+			r.check("H10", fmt.Sprintf("%s|thread-transform#%d-is-not-a-reflection", shortFn(fn), ord), c.Pos(), !fromMirror(c.Common().Args[1], map[ssa.Value]bool{}),
+				"the matrix applied to a solid built by Screw3D does not come from a Mirror constructor (a reflection reverses the hand of the thread)")
+		})
+	}
+	r.Counts["thread_transforms"] = n
+	r.expectControl("H10", "verifCtlMirroredThread")
+	r.floor("H10", 1)
 }
